@@ -155,6 +155,46 @@ class GenModel:
                     t = Template(ev.mac, ev, fw, tm)
                     self._tmpl_by_mac[id(ev.mac)] = t
                     self.templates.append(t)
+        self.inlined_templates = set()
+        for _ in range(4):
+            if not self._inline_template_holes():
+                break
+
+    def _inline_template_holes(self):
+        """`let x = quote!(U); .. quote!(.. #x ..)`: a piece of a template bound to a variable first is part of that template (the
+        emitted tokens are identical).  Only for an immutable, unconditional `let` whose own holes mean the same thing at both sites."""
+        changed = False
+        for T in self.templates:
+            def splice(tokens):
+                nonlocal changed
+                out = []
+                for t in tokens:
+                    if t['t'] == 'h':
+                        d = T.scope.lookup(t['s'])
+                        U = None
+                        if d is not None and d.kind == 'let' and d.init is not None and not d.assigns and not d.ppath and not getattr(d, 'twins', None) \
+                                and d.init['k'] == 'Macro' and 'tmpl' in d.init['mac']:
+                            U = self._tmpl_by_mac.get(id(d.init['mac']))
+                        if U is not None and U is not T and all(c in T.ctx for c in d.ctx) \
+                                and all(T.scope.lookup(h) is U.scope.lookup(h) for h in U.holes):
+                            out.extend(U.tokens)
+                            self.inlined_templates.add(id(U))
+                            changed = True
+                            continue
+                        out.append(t)
+                    elif t['t'] in ('g', 'rep'):
+                        t2 = dict(t)
+                        t2['ts'] = splice(t['ts'])
+                        out.append(t2)
+                    else:
+                        out.append(t)
+                return out
+            new = splice(T.tokens)
+            if new != T.tokens:
+                T.tokens = new
+                T.holes = hole_names(new)
+                T._parsed = {}
+        return changed
 
     def terms_of(self, fw):
         if id(fw) not in self._terms:
